@@ -81,6 +81,14 @@ def decision_table(ctx):
             if v.startswith('eval('):
                 cls_var = n.ast.targets[0].id
                 eval_arg = unparse(n.ast.value.args[0])
+    if cls_var is None:
+        # the class expression may be written in place: isinstance(value, eval(<name>))
+        for n in g.stmt_nodes():
+            if n.kind == 'test' and isinstance(n.ast, ast.Call) and unparse(n.ast.func) == 'isinstance' and len(n.ast.args) == 2 and unparse(n.ast.args[0]) == val_p:
+                c2 = n.ast.args[1]
+                if isinstance(c2, ast.Call) and unparse(c2.func) == 'eval' and c2.args:
+                    cls_var = unparse(c2)
+                    eval_arg = unparse(c2.args[0])
     if found is None or cls_var is None:
         raise AnalysisError("_convert_attribute_to_child: found_child / child_class variables not recognised (idiom not understood)")
     res.check(found_arg == eval_arg, 'R-TABLE.shortcut', f.fq, "the existing child is looked up by the same class name that is instantiated",
